@@ -336,7 +336,7 @@ func (r *transport) handleCacheHit(
 			if isRespNoCacheQualified {
 				stripFields(stored.Data.Header, respNoCacheFieldsSeq)
 			}
-			return r.handleStaleWhileRevalidate(req, stored, urlKey, freshness, ccReq)
+			return r.handleStaleWhileRevalidate(req, stored, urlKey, freshness, ccReq, refs, refIndex)
 		}
 	}
 
@@ -393,6 +393,8 @@ func (r *transport) handleStaleWhileRevalidate(
 	urlKey string,
 	freshness *internal.Freshness,
 	ccReq internal.CCRequestDirectives,
+	refs internal.ResponseRefs,
+	refIndex int,
 ) (*http.Response, error) {
 	req2 := req.Clone(req.Context())
 	req2 = withConditionalHeaders(req2, stored.Data.Header)
@@ -402,7 +404,7 @@ func (r *transport) handleStaleWhileRevalidate(
 	//
 	// Open a discussion at github.com/bartventer/httpcache/issues if your use case requires
 	// guaranteed completion.
-	go r.backgroundRevalidate(req2, stored, urlKey, freshness, ccReq)
+	go r.backgroundRevalidate(req2, urlKey, freshness, ccReq, refs, refIndex)
 	internal.SetAgeHeader(stored.Data, r.clock, freshness.Age)
 	internal.CacheStatusStale.ApplyTo(stored.Data.Header)
 	r.logger.LogCacheStaleRevalidate(req, urlKey, internal.MiscFunc(func() internal.Misc {
@@ -417,10 +419,11 @@ func (r *transport) handleStaleWhileRevalidate(
 
 func (r *transport) backgroundRevalidate(
 	req *http.Request,
-	stored *internal.Response,
 	urlKey string,
 	freshness *internal.Freshness,
 	ccReq internal.CCRequestDirectives,
+	refs internal.ResponseRefs,
+	refIndex int,
 ) {
 	ctx, cancel := context.WithTimeout(req.Context(), r.swrTimeout)
 	defer cancel()
@@ -440,12 +443,21 @@ func (r *transport) backgroundRevalidate(
 			return
 		default:
 		}
+		// The response that was served belongs to the caller by now: the outcome
+		// is applied to a copy of the stored entry that is our own.
+		stored, err := r.cache.Get(refs[refIndex].ResponseID, req)
+		if err != nil {
+			errc <- err
+			return
+		}
 		revalCtx := internal.RevalidationContext{
 			URLKey:    urlKey,
 			Start:     start,
 			End:       end,
 			CCReq:     ccReq,
 			Stored:    stored,
+			Refs:      refs,
+			RefIndex:  refIndex,
 			Freshness: freshness,
 		}
 		//nolint:bodyclose // The response is not used, so we don't need to close it.
